@@ -3,6 +3,7 @@ package main
 import (
 	"go/token"
 	"go/types"
+	"sort"
 	"strings"
 
 	"golang.org/x/tools/go/ssa"
@@ -47,8 +48,27 @@ func runC20(c *Ctx) {
 		}
 	}
 	// methods calling Cond.Wait / Cond.Broadcast / Cond.Signal
+	// (the operations of the agent interface: exported, one byte parameter, an error result; a method that merely
+	// calls one of them is a caller, judged below)
 	var waitFn, bcastFn *ssa.Function
-	for _, fn := range m.Methods {
+	var names []string
+	for n := range m.Methods {
+		names = append(names, n)
+	}
+	sort.Strings(names)
+	isOp := func(fn *ssa.Function) bool {
+		sig := fn.Signature
+		if !token.IsExported(fn.Name()) || sig.Params().Len() != 1 || sig.Results().Len() != 1 || !isErrorType(sig.Results().At(0).Type()) {
+			return false
+		}
+		bt, ok := sig.Params().At(0).Type().Underlying().(*types.Basic)
+		return ok && bt.Kind() == types.Uint8
+	}
+	for _, n := range names {
+		fn := m.Methods[n]
+		if !isOp(fn) {
+			continue
+		}
 		for _, call := range w.callsInDeep(fn) {
 			switch calleeName(call) {
 			case "(*sync.Cond).Wait":
@@ -98,7 +118,10 @@ func runC20(c *Ctx) {
 			})
 		}
 		for _, r := range liveReturns(fn) {
-			okNil := true
+			okNil := len(r.Results) > 0
+			if !okNil {
+				continue
+			}
 			for _, lf := range w.Leaves(r.Results[0], r) {
 				if !isNilConst(lf.Val) {
 					okNil = false
@@ -119,6 +142,21 @@ func runC20(c *Ctx) {
 			}
 		}
 	}
+	// who may wake waiters: the condition variables are signalled by the broadcast operation only, and that operation
+	// has no caller inside the repository other than the serve loop (which calls it through the agent interface with
+	// the request's own code) - anything else releases waiters of codes no request carried
+	for _, fn := range w.RepoFuncs() {
+		for _, call := range callsIn(fn) {
+			switch calleeName(call) {
+			case "(*sync.Cond).Broadcast", "(*sync.Cond).Signal":
+				c.Check(fn == bcastFn || w.inTree(bcastFn, fn), "R2.cond", "condition signalled only by the broadcast operation ("+shortFn(fn)+")", w.Pos(call.Pos()), "inside "+shortFn(bcastFn), "a condition variable of the table is signalled outside the broadcast operation: waiters are released by something other than a request with their code")
+			}
+			if sv := w.Func(yubiPkg, "ServeAgent"); call.Common().StaticCallee() == bcastFn && !(sv != nil && (fn == sv || w.inTree(sv, fn))) {
+				c.Bad("R2.cond", "broadcast operation called only by the serve loop ("+shortFn(fn)+")", w.Pos(call.Pos()), shortFn(fn)+" calls the broadcast operation itself: waiters are released without a request carrying their code")
+			}
+		}
+	}
+	c.Ok("R2.cond", "broadcast operation called only by the serve loop", w.FnPos(bcastFn), "no static call of "+shortFn(bcastFn)+" outside the serve loop (whose call R3.loop judges)")
 	// R2
 	checkCondUse(c, m, waitFn, "(*sync.Cond).Wait", true)
 	checkCondUse(c, m, bcastFn, "(*sync.Cond).Broadcast", false)
